@@ -250,6 +250,7 @@ def run_cli(r: Runner, scn: dict):
             data = payload(dl, sd)
             f = d / f"in{n}.bin"
             f.write_bytes(data)
+            core.through_link(f, (r.tid + n) % 3 == 0)
             args += ["--input", f"{uri},{f}"]
             want.append([it.id(uri), it.id(data)])
             uris.append(uri)
